@@ -11,8 +11,8 @@ git -C $WT checkout -q -- . ; git -C $WT apply $OUT/patch.diff || { echo "APPLY 
 [ -d $WT/_build ] || cmake -G Ninja -S $WT -B $WT/_build -DFS_BUILD_TESTS=ON -DCMAKE_BUILD_TYPE=RelWithDebInfo -DGTest_DIR=/root/miniconda/lib/cmake/GTest > /dev/null 2>&1
 cmake --build $WT/_build -j6 > $OUT/build.log 2>&1; echo "build_with_change rc=$?" >> $LOG
 ctest --test-dir $WT/_build -j6 --timeout 900 2>&1 | tail -3 >> $LOG
-g++ -std=c++17 -O1 -w -I$WT/include $OUT/demo.cpp -o /tmp/demo_${NAME}_mut -lpthread 2>> $LOG; timeout 120 /tmp/demo_${NAME}_mut > /dev/null 2>&1; echo "demo_with_change rc=$?" >> $LOG
+g++ -std=c++17 -O1 -w ${DEMOFLAGS:-} -I$WT/include $OUT/demo.cpp -o /tmp/demo_${NAME}_mut -lpthread 2>> $LOG; timeout 120 /tmp/demo_${NAME}_mut > /dev/null 2>&1; echo "demo_with_change rc=$?" >> $LOG
 git -C $WT checkout -q -- .
-g++ -std=c++17 -O1 -w -I$WT/include $OUT/demo.cpp -o /tmp/demo_${NAME}_clean -lpthread 2>> $LOG; timeout 120 /tmp/demo_${NAME}_clean > /dev/null 2>&1; echo "demo_clean rc=$?" >> $LOG
+g++ -std=c++17 -O1 -w ${DEMOFLAGS:-} -I$WT/include $OUT/demo.cpp -o /tmp/demo_${NAME}_clean -lpthread 2>> $LOG; timeout 120 /tmp/demo_${NAME}_clean > /dev/null 2>&1; echo "demo_clean rc=$?" >> $LOG
 rm -f /tmp/demo_${NAME}_mut /tmp/demo_${NAME}_clean $OUT/build.log
 cat $LOG
